@@ -35,6 +35,12 @@ from forml import flow
 LOGGER = logging.getLogger(__name__)
 
 
+def _setstate(actor: flow.Actor, state: tuple[bytes, typing.Mapping[str, typing.Any]]) -> None:
+    """State setter used when unpickling wrapped class-based actors (must be importable to be picklable)."""
+    actor.set_state(state[0])
+    actor.set_params(**state[1])
+
+
 class Class(abc.ABCMeta):
     """Wrapped class-based actor metaclass."""
 
@@ -121,7 +127,7 @@ class Class(abc.ABCMeta):
                 (a.get_state(), a.get_params()),
                 None,
                 None,
-                lambda o, s: (o.set_state(s[0]), o.set_params(**s[1])),
+                _setstate,
             ),
         )
         return actor
